@@ -6,13 +6,14 @@ import SugarModel.Lemmas.NoFlush
 namespace Sugar.Props.C20
 open Sugar
 
-/-- **Frame theorem.** A step program run with database `c.db` selected leaves every other logical
+/-- **Frame theorem** (`State.db j` is database `j` as a dataset: an absent database reads as empty).
+    A step program run with database `c.db` selected leaves every other logical
     database (its keys, values, deadlines and volatile-key index) exactly as it was, provided the
     program never issues the all-databases flush. Holds for *every* program over the keyspace
     primitives, hence for every modelled handler, every argument vector, every state. -/
 theorem frame {α : Type} (p : Prog α) (c : Ctx) (s : State) (j : Nat)
     (hj : j ≠ c.db) (hp : p.NoFlushAll) :
-    ((p.run c s).1.dbs.get j) = s.dbs.get j :=
+    (p.run c s).1.db j = s.db j :=
   Sugar.frame_run p c s j hj hp
 
 /-- every modelled command other than FLUSHALL denotes a program without the all-databases flush -/
@@ -26,7 +27,7 @@ theorem handlers_noFlushAll (c : Ctx) (cmd : List Bytes) (p : Prog Res)
 theorem command_isolated (c : Ctx) (s : State) (cmd : List Bytes) (s' : State) (o : Outcome Res)
     (j : Nat) (hj : j ≠ c.db) (hn : ¬ eqFold (cmd.headD []) (b "flushall") = true)
     (h : step c s cmd = some (s', o)) :
-    s'.dbs.get j = s.dbs.get j := by
+    s'.db j = s.db j := by
   unfold step at h
   cases hp : progOf c cmd with
   | none => simp [hp] at h
@@ -57,8 +58,8 @@ theorem flushall_empties_all (s : State) (j : Nat) (d : Db) (h : (flushAll s).db
     · exact ih h
 
 /-- non-vacuity: a concrete two-database state and a write under database 0 -/
-example : (step { db := 0, now := 1000 } ⟨[(0, ⟨[], []⟩), (1, ⟨[(b "k", ⟨.str (b "v"), none⟩)], []⟩)], 0⟩
-            [b "set", b "k", b "x"]).map (fun r => r.1.dbs.get 1)
-          = some (some ⟨[(b "k", ⟨.str (b "v"), none⟩)], []⟩) := by decide
+example : (step { db := 0, now := 1000 } { dbs := [(0, ⟨[], []⟩), (1, ⟨[(b "k", ⟨.str (b "v"), none⟩)], []⟩)], mem := 0 }
+            [b "set", b "k", b "x"]).map (fun r => r.1.db 1)
+          = some ⟨[(b "k", ⟨.str (b "v"), none⟩)], []⟩ := by decide
 
 end Sugar.Props.C20
